@@ -7,7 +7,7 @@ bits, re-parsed header floats). Conservation-style: fields in = fields out +- wh
 operation declares."""
 import os, random, itertools
 import numpy as np
-from .. import common, gen, chkgen, refparse, refmodel, pools
+from .. import common, gen, chkgen, refparse, refmodel, pools, workload
 
 ID = "C14"
 LEVEL = "exploration"
@@ -45,7 +45,12 @@ def cases(tier, seed):
                      payload=rng.choice(["random", "special", "extreme"]))
             if (hi + k) % 4 == 1:     # unusual but valid names (no blanks: chef takes kept fields as one blank-separated string)
                 g["names"] = gen.odd_names(random.Random(seed * 41 + hi * 7 + k), 3 + (hi % 2), nonascii=True)
-            cs.append({"kind": "hist", "gen": g, "history": h, "sel_seed": seed * 83 + hi * 7 + k})
+            c = {"kind": "hist", "gen": g, "history": h, "sel_seed": seed * 83 + hi * 7 + k}
+            if (hi + k) % 6 == 2:     # the starting plotfile keeps its binary files in a store, linked into the level directories
+                c["store"] = ["files", "files+levels"][(hi // 6) % 2]
+            if (hi + k) % 6 == 5:     # ... or is reached through `<symlinked directory>/../plt00100`
+                c["reach"] = True
+            cs.append(c)
     for k in range(2 if tier == "quick" else 8):     # 2D colander chains
         g = dict(seed=rng.randrange(10 ** 9), ndims=2, nlevels=2 + k % 2, bf=4, names=["f0", "f1", "f2"], base_blocks=(1, 3))
         cs.append({"kind": "hist", "gen": g, "history": ["colander", "colander", "colander"], "sel_seed": seed * 89 + k})
@@ -115,6 +120,12 @@ def run_case(case, work, rec):
         m = gen.gen_model(**case["gen"])
         cur = os.path.join(work, "plt00100")
         gen.write_plotfile(m, cur, ref_ratio_extra=rng.choice([0, 1]), trailing_blank=rng.random() < 0.7)
+        if case.get("store"):
+            workload.to_store(cur, level_links="levels" in case["store"])
+            rec.count("start_with_linked_binary_files")
+        if case.get("reach"):
+            cur = workload.reach_link_dotdot(work, cur)
+            rec.count("start_reached_through_link_dotdot")
         exp = refmodel.from_model(m)
         digest = common.sha(case["gen"])
     rec.sample({"start": case.get("gen", "chk2plt output"), "history": case["history"]})
